@@ -198,6 +198,26 @@ class D:
 ]
 
 
+# programs that import from their own module (`__SELF__` is replaced by the module's path: `__main__` in memory, `fz.m<N>` on disk):
+# a one-module import cycle that loads fine — what matters is what the NEXT input of the same session does (unload cascade)
+SELF_IMPORT_PROGRAMS: list[str] = [
+	'from __SELF__ import A\nclass A: ...\na = A()\n',
+	'from __SELF__ import f\ndef f() -> int:\n\treturn 1\nx = f()\n',
+	'from __SELF__ import A, B\nclass A: ...\nclass B(A): ...\n',
+	'from __SELF__ import A\nfrom __SELF__ import A as A2\nclass A:\n\tdef m(self) -> int:\n\t\treturn 1\n',
+	'from __SELF__ import Missing\nclass A: ...\n',
+	'from __SELF__ import A\nclass A:\n\tdef f(self) -> int:\n\t\treturn self.y\n',
+]
+
+# ends of file: what follows the last statement (the final line feed is removed first). Unterminated last lines with and without
+# content, indentation-only tails inside and outside the open block, form feed, CR LF, comment, continuation.
+EOF_TAILS: list[str] = ['', '\n\t', '\n\t\t', '\n    ', '\n\t\t\t\t', '\n \t', '\n\n\t', '\n\t\n\t', ' ', '\t', '\n#', '\n\t# c', '\r\n\t', '\n\x0c', '\n\\', '\n\tpass']
+
+
+def with_tail(src: str, tail: str) -> str:
+	return src.rstrip('\n') + tail
+
+
 def fixture_programs() -> list[tuple[str, str]]:
 	"""(name, source) of the repository's own valid sources used as mutation seeds (tests' fixtures, example/)."""
 	rels = [
